@@ -322,6 +322,12 @@ pub const API_PATTERNS: &[(&str, &str)] = &[
     ("", "(?<first>\\w+)\\s+(?<second>\\w+)"),
     ("", "^a"),
     ("", "(?<q>)"),
+    // a leading greedy group that a back-reference constrains (no start shortcut applies)
+    ("s", "(.*)=\\1"),
+    ("s", "(.*)a\\1"),
+    ("s", "(?<g>.*);\\k<g>"),
+    ("", "(.*)=\\1"),
+    ("s", "(.+?)\\1"),
     // groups in branches that can never match, or are never entered
     ("", "(a)?(?:(?!(b))[]|z)"),
     ("", "(?:(?!(?<n>b))[]|z)(?<t>w)"),
@@ -428,6 +434,15 @@ fn api_regex_unfiltered(rng: &mut Rng) -> Option<(String, String, Regex, Vec<Str
             hays.push((0..l).map(|_| *rng.pick(&alpha)).collect::<String>());
         }
         hays.push(random_text(rng, 8));
+        if p.contains("\\1") || p.contains("\\k<") {
+            // text that repeats itself around each literal of the pattern, after a character that spoils the
+            // attempt at the cursor: a back-reference succeeds later but not at the first position tried
+            for sep in p.chars().filter(|c| "=;a".contains(*c)) {
+                let w: String = (0..rng.range(1, 2)).map(|_| *rng.pick(&alpha)).collect();
+                hays.push(format!("{}{}{}{}", rng.pick(&alpha), w, sep, w));
+                hays.push(format!("{}{}{}{}{}{}", w, sep, w, rng.pick(&alpha), sep, rng.pick(&alpha)));
+            }
+        }
         Some((f.to_string(), p.to_string(), re, hays))
     } else {
         let flags = Flags::random(rng);
@@ -814,7 +829,7 @@ pub fn c09(rep: &mut Report, n: usize, seed: u64) {
         let Some((flags, pat, re, hays)) = api_regex(&mut rng) else { continue };
         let dump = regress::verif::dump_program(&re);
         let anchored = dump.lines().nth(1) == Some("S anchored");
-        for text in hays.iter().take(3) {
+        for text in hays.iter().take(3).chain(hays.iter().skip(5)) {
             let text: String = text.chars().take(10).collect();
             let bounds = boundaries(&text);
             for exec in [Exec::Bt, Exec::Pk] {
@@ -925,9 +940,9 @@ fn unfold_oracle(re: &Regex, text: &str, bounds: &[usize], start: usize, exec: E
                 found = Some((q, e, caps));
                 break;
             }
-            if anchored {
-                break;
-            }
+            // no shortcut for start-anchored programs: if the anchoring is sound every later attempt fails
+            // anyway, and if it is not, this is where it shows
+            let _ = anchored;
         }
         match found {
             None => break,
